@@ -57,7 +57,9 @@ namespace occa {
 
     template <class T>
     array<T> map(const occa::function<T(const int)> &fn) const {
-      return typelessMap<T>(fn);
+      array<T> output(device_, length());
+      typelessMapTo(output.memory(), fn);
+      return output;
     }
 
     template <class T>
